@@ -99,6 +99,7 @@ type Rig struct {
 	wg             sync.WaitGroup
 	baseline       int
 	stepNo         int
+	t0             time.Time
 	cfgMu          sync.Mutex
 	cfgs           map[int]subCfg
 }
@@ -134,7 +135,7 @@ func (g *Rig) viol(clause string, sub int, call, format string, a ...any) {
 }
 
 func (g *Rig) trace(format string, a ...any) {
-	g.res.Trace = append(g.res.Trace, fmt.Sprintf("%4d  ", g.clock.n.Load())+fmt.Sprintf(format, a...))
+	g.res.Trace = append(g.res.Trace, fmt.Sprintf("%4d %8.3fms  ", g.clock.n.Load(), float64(time.Since(g.t0).Microseconds())/1000)+fmt.Sprintf(format, a...))
 }
 
 func (g *Rig) label(l string) { g.res.Labels[l]++ }
@@ -155,6 +156,7 @@ func Execute(h History) *Result {
 	g := &Rig{bus: newBus(), clock: &Clock{}, conns: map[int]resolve.ConnectionID{}, cfgs: map[int]subCfg{}, m: NewModel(),
 		res: &Result{Labels: map[string]int{}}, baseline: runtime.NumGoroutine()}
 	g.res.Model = g.m
+	g.t0 = time.Now()
 	g.rep = &Reporter{bus: g.bus}
 	g.sched = &Sched{bus: g.bus}
 	g.src = &Source{bus: g.bus, clock: g.clock,
@@ -859,6 +861,7 @@ func (g *Rig) finish() {
 		}
 	}
 	g.stepNo = -1
+	g.trace("quiescent=%v", quiet)
 	g.finalOracle(quiet)
 	if g.res.Expired != "" && len(g.res.Violations) == 0 {
 		g.res.Inconclusive = "watchdog: " + g.res.Expired + "\n" + strings.Join(g.res.Trace, "\n")
